@@ -84,9 +84,11 @@ func (h *connectHandler) ContentTypes() map[string]struct{} {
 
 func (*connectHandler) SetTimeout(request *http.Request) (context.Context, context.CancelFunc, error) {
 	timeout := request.Header.Get(connectHeaderTimeout)
-	if timeout == "" {
+	if timeout == "" && len(request.Header.Values(connectHeaderTimeout)) == 0 {
 		return request.Context(), nil, nil
 	}
+	// A header that is there but empty is a malformed timeout, not an absent
+	// one: it fails to parse below.
 	if len(timeout) > 10 {
 		return nil, nil, errorf(CodeInvalidArgument, "parse timeout: %q has >10 digits", timeout)
 	}
